@@ -627,6 +627,8 @@ def specZCombine (cmd : List Bytes) (inter store : Bool) : Verdict :=
   let args := if store then cmd.drop 2 else cmd.drop 1
   let dst := cmd.getD 1 []
   let keys := args.takeWhile fun t => !isCombineWord t
+  -- without a numkeys argument a destination spelled like an option word has no agreed reading
+  if store && isCombineWord dst then unspec else
   if keys.isEmpty then errNoChange now a else
   match combineOpts (args.length + 1) (args.dropWhile fun t => !isCombineWord t) {} with
   | .bad => errNoChange now a
